@@ -3,7 +3,7 @@
 #ifndef VERIF_MEM_H
 #define VERIF_MEM_H
 #if defined(VERIF_CBMC) && defined(VERIF_ABSTRACT)
-static void* verif_memcpy(void* d, const void* s, size_t n)
+static void* verif_memcpy_(void* d, const void* s, size_t n)
 {
   if (n != 0) {
     VERIF_ASSERT(__CPROVER_r_ok(s, n), "check: memcpy source readable");
@@ -18,12 +18,44 @@ static void* verif_memcpy(void* d, const void* s, size_t n)
   return d;
 }
 #elif defined(VERIF_CBMC)
-static void* verif_memcpy(void* d, const void* s, size_t n)
+static void* verif_memcpy_(void* d, const void* s, size_t n)
 {
   for (size_t i = 0; i < n; ++i) VERIF_MODEL_LOOP ((char*)d)[i] = ((const char*)s)[i];
   return d;
 }
 #else
-static void* verif_memcpy(void* d, const void* s, size_t n) { if (n) memcpy(d, s, n); return d; }
+static void* verif_memcpy_(void* d, const void* s, size_t n) { if (n) memcpy(d, s, n); return d; }
+#endif
+/* bulk copies appear in the ghost call log: fn = FN_MEMCPY / FN_STRNCPY / FN_MEMSET, p[0] = destination, p[1] = source, v[2] = length */
+#define FN_MEMCPY (-100)
+#define FN_STRNCPY (-101)
+#define FN_MEMSET (-102)
+#if defined(VERIF_CBMC)
+#define verif_memcpy(d, s, n) (verif_log_bulk(FN_MEMCPY, (d), (s), (n)), verif_memcpy_((d), (s), (n)))
+static int verif_log_bulk(int fn, const void* d, const void* s, size_t n) { VERIF_LOG_CALL(fn, d, s, 0, 0, 0, 0, (uint64_t)n, 0) VERIF_LOG_RET((const char*)d + n) return 0; }
+/* strncpy: copies up to n bytes, stops at the first NUL of the source and zero-fills the rest (C17 7.24.2.4) */
+static char* verif_strncpy(char* d, const char* s, size_t n)
+{
+  verif_log_bulk(FN_STRNCPY, d, s, n);
+  if (n != 0) {
+    VERIF_ASSERT(__CPROVER_w_ok(d, n), "check: strncpy destination writable");
+#ifdef VERIF_ABSTRACT
+    __CPROVER_havoc_slice(d, n);   /* contents abstracted: which bytes are copied depends on where the source has a NUL */
+#else
+    _Bool z = 0; for (size_t i = 0; i < n; ++i) VERIF_MODEL_LOOP { if (!z && s[i] == 0) z = 1; d[i] = z ? 0 : s[i]; }
+#endif
+  }
+  return d;
+}
+static void* verif_memset(void* d, int c, size_t n)
+{
+  verif_log_bulk(FN_MEMSET, d, 0, n);
+  if (n != 0) { VERIF_ASSERT(__CPROVER_w_ok(d, n), "check: memset destination writable"); __CPROVER_havoc_slice(d, n); if (verif_g < n) ((unsigned char*)d)[verif_g] = (unsigned char)c; }
+  return d;
+}
+#else
+#define verif_memcpy(d, s, n) verif_memcpy_((d), (s), (n))
+#define verif_strncpy strncpy
+#define verif_memset memset
 #endif
 #endif
